@@ -1,27 +1,28 @@
 import OvniModel.Lemmas.FsSpec
+import OvniModel.Lemmas.FsWitness
 
 /-!
 # C10 — I/O faults are never silent
 
-Model: `OvniModel/Rt/Fs.lean` (statement definitions `Complete`, `CopyExists`, `NotSilent` in
-`OvniModel/Rt/FsSpec.lean`), `faultAt`: the `i`-th libc call of the run fails
-(errno class, or short count for write/fwrite/fputs), then the runtime does
-what the C code does after that failure (`cont`).  Outcome: `die fs`
-(abort()) or `returned fs`.
+Model: `OvniModel/Rt/Fs.lean` (the code after `fix: check the relocation and
+close(streamfd)` and `fix: relocate stream.obs before stream.json`; statement
+definitions `Complete`, `CopyExists`, `NotSilent` in `OvniModel/Rt/FsSpec.lean`),
+`faultAt`: the `i`-th libc call of the run fails (errno class, or short count
+for write/fwrite/fputs), then the runtime does what the C code does after that
+failure (`cont`).  Outcome: `die fs` (abort()) or `returned fs`.
 
-* `single_fault_not_silent_partial` — for every program, every call index,
-  every fault kind: if the failing call is at a call site whose result the code
-  checks (or whose failure is harmless: fclose(infile), remove, closedir,
-  rmdir), then either the runtime aborts — and a complete copy of every
-  thread's flushed bytes is still on disk — or it returns with the final trace
-  of every freed thread complete.  In particular direct mode except
-  `close(streamfd)`.
-* `…_fails` — for the code as it stands the full statement is FALSE; one
-  witness per unchecked call site:
-  `close_streamfd_unchecked`, `move_opendir_failure_silent`,
-  `move_readdir_failure_silent`, `move_ignores_copy_errors` (fwrite; fclose of
-  the copy; fopen of the destination), the last ones destroying the only
-  complete copy.
+* `single_fault_not_silent` — for every program (both modes), every call
+  index, every fault kind: either the runtime aborts — and a complete copy of
+  every thread's flushed bytes is still on disk, unless the failing call is
+  `close(streamfd)` itself reporting the loss of the last write — or it
+  returns with the final trace of every freed thread complete.
+* `fault_free_run_keeps_a_complete_copy` — no point of a fault-free run is
+  without a complete copy of what each thread flushed.
+* `…_before_fix` — the code before the fix (`Rt/FsOld.lean`) violated the
+  statement at each call site whose result it ignored: `close_streamfd_unchecked`,
+  `move_opendir_failure_silent`, `move_readdir_failure_silent`,
+  `move_ignores_copy_errors` (fwrite; fclose of the copy; fopen of the
+  destination) — the keys checks/c10.py reports on the unpatched library.
 -/
 set_option linter.unusedSimpArgs false
 namespace Ovni.Props.C10
@@ -29,24 +30,24 @@ open Ovni.Rt Ovni.Rt.Fs
 
 /-! ### C10 -/
 
-theorem single_fault_not_silent_partial (C : Codec) (p : Prog) (hwf : WellFormed p)
-    (hm : p.tmpMode = false ∨ ReaddirOrder p) (i : Nat) (f : Fault) (kept : Nat)
-    (hchk : ∀ c, (calls C.ser p)[i]? = some c → c.site.unchecked = false) :
-    NotSilent C p (faultAt C.ser p i f kept) := by
-  have hend : NotSilent C p (.returned (run p.init (ops (calls C.ser p)))) :=
-    returned_ok (fun t ht hf => complete_at_end C p hwf hm t ht hf)
+theorem single_fault_not_silent (C : Codec) (p : Prog) (hwf : WellFormed p) (i : Nat) (f : Fault) (kept : Nat) :
+    NotSilent C p (siteAt (calls C.ser p) i) (faultAt C.ser p i f kept) := by
+  have hend : ∀ fl, NotSilent C p fl (.returned (run p.init (ops (calls C.ser p)))) :=
+    fun _ => returned_ok (fun t ht hf => complete_at_end C p hwf t ht hf)
   unfold faultAt
   simp only
   cases hci : (calls C.ser p)[i]? with
-  | none => exact hend
+  | none => exact hend _
   | some c =>
     simp only
     by_cases hfire : fires c.op f = true
-    case neg => rw [if_neg hfire]; exact hend
+    case neg => rw [if_neg hfire]; exact hend _
     rw [if_pos hfire, show Fs.run p.init (ops (List.take i (calls C.ser p))) = crashState C p i from rfl]
-    have hck := hchk c hci
+    have hsite : siteAt (calls C.ser p) i = some c.site := by simp [siteAt, hci]
+    rw [hsite]
     have hmem : c ∈ calls C.ser p := List.mem_of_getElem? hci
     have hso := siteOk_calls C.ser p c hmem
+    have hopi : (ops (calls C.ser p))[i]? = some c.op := by simp [ops, hci]
     have hsplit : calls C.ser p = (calls C.ser p).take i ++ c :: (calls C.ser p).drop (i + 1) := by
       have hi : i < (calls C.ser p).length := by
         rcases Nat.lt_or_ge i (calls C.ser p).length with h | h
@@ -64,49 +65,66 @@ theorem single_fault_not_silent_partial (C : Codec) (p : Prog) (hwf : WellFormed
       rfl
     -- abort with the file system unchanged outside stream.json files
     have die_ok : ∀ s', (∀ q, q.isLeaf = true → (∀ r t, q ≠ .file r t .json) → s'.get q = (crashState C p i).get q) →
-        NotSilent C p (.die s') := by
-      intro s' hs' t ht
+        ∀ fl, NotSilent C p fl (.die s') := by
+      intro s' hs' fl
+      right
+      intro t ht
       rw [copyExists_iff]
-      exact noLoss_of_agree t.tid hs' ((copyExists_iff _ _).mp (copy_at_crash C p hwf hm t ht i))
+      exact noLoss_of_agree t.tid hs' ((copyExists_iff _ _).mp (copy_at_crash C p hwf t ht i))
+    -- abort after calls that only touch the destination file `fin t n`, moving pending bytes to its disk part
+    have die_dst : ∀ s' t n, (∀ q, q.isLeaf = true → q ≠ .file .fin t n → s'.get q = (crashState C p i).get q) →
+        (∀ d pn, (crashState C p i).get (.file .fin t n) = some (.file d pn) →
+          ∃ x pn', x <+: pn ∧ s'.get (.file .fin t n) = some (.file (d ++ x) pn')) →
+        ∀ fl, NotSilent C p fl (.die s') := by
+      intro s' t n hagree hfin fl
+      right
+      intro t' ht'
+      apply copy_after_die (crashState C p i) s' t'.tid (tinv_at_crash C p hwf t' ht' i).kept
+      · exact hagree _ rfl (by simp)
+      · exact hagree _ rfl (by simp)
+      · intro d pn hd
+        by_cases he : (Path.file .fin t'.tid .obs) = .file .fin t n
+        · rw [he] at hd ⊢; exact hfin d pn hd
+        · exact ⟨[], pn, List.nil_prefix, by rw [hagree _ rfl he, hd, List.append_nil]⟩
     -- return with the final tree and the ghost logs as in the fault-free run
     have go_ok : ∀ s', (∀ q, q.isLeaf = true → (∀ tid n, q ≠ .file .tmp tid n) →
-          s'.get q = (run p.init (ops (calls C.ser p))).get q) → NotSilent C p (.returned s') := by
-      intro s' hs'
-      exact returned_ok (fun t ht hf => complete_congr hs' (complete_at_end C p hwf hm t ht hf))
+          s'.get q = (run p.init (ops (calls C.ser p))).get q) → ∀ fl, NotSilent C p fl (.returned s') := by
+      intro s' hs' fl
+      exact returned_ok (fun t ht hf => complete_congr hs' (complete_at_end C p hwf t ht hf))
     unfold SiteOk at hso
-    cases hs : c.site <;> simp only [hs, Site.unchecked] at hck hso <;> try (cases hck)
+    cases hs : c.site <;> simp only [hs] at hso
     · -- mkdirPath
       obtain ⟨x, hop⟩ := hso
       simp only [cont, hs, hop, ops_nil, run_nil]
-      exact die_ok _ (fun q _ _ => by cases f <;> rfl)
+      exact die_ok _ (fun q _ _ => by cases f <;> rfl) _
     · -- statPath
       obtain ⟨x, hop⟩ := hso
       simp only [cont, hs, hop, ops_nil, run_nil]
-      exact die_ok _ (fun q _ _ => by cases f <;> rfl)
+      exact die_ok _ (fun q _ _ => by cases f <;> rfl) _
     · -- openStream
       obtain ⟨r, t, hop⟩ := hso
       simp only [cont, hs, hop, ops_nil, run_nil]
-      exact die_ok _ (fun q _ _ => by cases f <;> rfl)
+      exact die_ok _ (fun q _ _ => by cases f <;> rfl) _
     · -- writeStream
       obtain ⟨r, t, d, hop⟩ := hso
       cases f
       case short =>
         simp only [cont, hs, hop, applyFailed]
-        apply go_ok
+        refine go_ok _ ?_ _
         intro q hq _
         rw [hfull, hop, ops_cons]
         exact get_short_write hq r t d _ _
       all_goals
         simp only [cont, hs, hop, ops_nil, run_nil]
-        exact die_ok _ (fun q _ _ => rfl)
+        exact die_ok _ (fun q _ _ => rfl) _
     · -- storeFopen
       obtain ⟨r, t, hop⟩ := hso
       simp only [cont, hs, hop, ops_nil, run_nil]
-      exact die_ok _ (fun q _ _ => by cases f <;> rfl)
+      exact die_ok _ (fun q _ _ => by cases f <;> rfl) _
     · -- storeFputs: the fclose, then abort
       obtain ⟨r, t, d, hop⟩ := hso
       simp only [cont, hs, hop]
-      apply die_ok
+      refine die_ok _ ?_ _
       intro q hq hj
       have hne : q ≠ .file r t .json := hj r t
       rw [ops_cons, ops_nil, get_run _ _ hq, evolve_cons, evolve_nil, effect_of_not_touch (by simp [touch, hne])]
@@ -118,7 +136,7 @@ theorem single_fault_not_silent_partial (C : Codec) (p : Prog) (hwf : WellFormed
     · -- storeFclose
       obtain ⟨r, t, hop⟩ := hso
       simp only [cont, hs, hop, ops_nil, run_nil]
-      apply die_ok
+      refine die_ok _ ?_ _
       intro q hq hj
       have hne : q ≠ .file r t .json := hj r t
       have : ∀ g, applyFailed (crashState C p i) kept (.fcloseW (.file r t .json)) g =
@@ -129,33 +147,101 @@ theorem single_fault_not_silent_partial (C : Codec) (p : Prog) (hwf : WellFormed
       split
       · exact Fs.get_set_ne _ _ hne
       · rfl
+    · -- closeStream: the failed close is itself the loss; abort
+      simp only [cont, hs]
+      exact Or.inl rfl
+    · -- moveFopenSrc
+      obtain ⟨x, hop⟩ := hso
+      simp only [cont, hs, hop, ops_nil, run_nil]
+      exact die_ok _ (fun q _ _ => by cases f <;> rfl) _
+    · -- moveFopenDst: fclose(infile), abort
+      obtain ⟨t, n, hop⟩ := hso
+      simp only [cont, hs, hop]
+      refine die_ok _ ?_ _
+      intro q hq _
+      rw [ops_cons, ops_nil, get_run _ _ hq, evolve_cons, evolve_nil, effect_of_not_touch (by simp [touch])]
+      cases f <;> rfl
+    · -- moveFread: both fclose, abort
+      obtain ⟨t, n, k, hop⟩ := hso
+      simp only [cont, hs, hop]
+      have hS : applyFailed (crashState C p i) kept (.fread (.file .tmp t n) k) f = crashState C p i := by cases f <;> rfl
+      rw [hS]
+      refine die_dst _ t n ?_ ?_ _
+      · intro q hq hne
+        rw [ops_cons, ops_cons, ops_nil, get_run _ _ hq, evolve_cons, evolve_cons, evolve_nil,
+          effect_of_not_touch (by simp [touch, hne]), effect_of_not_touch (by simp [touch, hne])]
+      · intro d pn hd
+        refine ⟨pn, [], List.prefix_refl _, ?_⟩
+        rw [ops_cons, ops_cons, ops_nil, get_run _ _ rfl, evolve_cons, evolve_cons, evolve_nil, hd,
+          effect_of_not_touch (by simp [touch])]
+        simp [effect, flushPend]
+    · -- moveFwrite: break, both fclose, abort
+      obtain ⟨t, n, d0, hop⟩ := hso
+      simp only [cont, hs, hop]
+      right
+      intro t' ht'
+      by_cases he : (Path.file .fin t'.tid .obs) = .file .fin t n
+      · -- the copy of this thread's stream.obs: its source is intact
+        have hk := fwrite_obs_at C p hwf t' ht' i d0 (by rw [hopi, hop, he])
+        apply copy_after_die_tmp (crashState C p i) _ t'.tid hk
+        · rw [ops_cons, ops_cons, ops_nil, get_run _ _ rfl, evolve_cons, evolve_cons, evolve_nil,
+            effect_of_not_touch (by simp [touch]), effect_of_not_touch (by simp [touch])]
+          cases f
+          case short => simp only [applyFailed]; rw [get_apply _ _ rfl, effect_of_not_touch (by simp [touch])]
+          all_goals rfl
+        · rw [ops_cons, ops_cons, ops_nil, get_run _ _ rfl, evolve_cons, evolve_cons, evolve_nil,
+            effect_of_not_touch (by simp [touch]), effect_of_not_touch (by simp [touch])]
+          cases f
+          case short => simp only [applyFailed]; rw [get_apply _ _ rfl, effect_of_not_touch (by simp [touch])]
+          all_goals rfl
+      · have agree : ∀ q, q.isLeaf = true → q ≠ .file .fin t n →
+            (run (applyFailed (crashState C p i) kept (.fwrite (.file .fin t n) d0) f)
+              (ops [⟨.moveFcloseOut, c.grp, .fcloseW (.file .fin t n)⟩, ⟨.moveFcloseIn, c.grp, .fcloseR (.file .tmp t n)⟩])).get q
+            = (crashState C p i).get q := by
+          intro q hq hne
+          rw [ops_cons, ops_cons, ops_nil, get_run _ _ hq, evolve_cons, evolve_cons, evolve_nil,
+            effect_of_not_touch (by simp [touch, hne]), effect_of_not_touch (by simp [touch, hne])]
+          cases f
+          case short => simp only [applyFailed]; rw [get_apply _ _ hq, effect_of_not_touch (by simp [touch, hne])]
+          all_goals rfl
+        apply copy_after_die (crashState C p i) _ t'.tid (tinv_at_crash C p hwf t' ht' i).kept
+        · exact agree _ rfl (by simp)
+        · exact agree _ rfl (by simp)
+        · intro d pn hd
+          exact ⟨[], pn, List.nil_prefix, by rw [agree _ rfl he, hd, List.append_nil]⟩
+    · -- moveFcloseOut: fclose(infile), abort
+      obtain ⟨t, n, hop⟩ := hso
+      simp only [cont, hs, hop]
+      have hS : ∀ g, applyFailed (crashState C p i) kept (.fcloseW (.file .fin t n)) g =
+          match (crashState C p i).get (.file .fin t n) with
+          | some (.file disk pend) => (crashState C p i).set (.file .fin t n) (.file (disk ++ pend.take kept) [])
+          | _ => crashState C p i := by intro g; cases g <;> rfl
+      refine die_dst _ t n ?_ ?_ _
+      · intro q hq hne
+        rw [ops_cons, ops_nil, get_run _ _ hq, evolve_cons, evolve_nil, effect_of_not_touch (by simp [touch]), hS]
+        split
+        · exact Fs.get_set_ne _ _ hne
+        · rfl
+      · intro d pn hd
+        refine ⟨pn.take kept, [], List.take_prefix _ _, ?_⟩
+        rw [ops_cons, ops_nil, get_run _ _ rfl, evolve_cons, evolve_nil, effect_of_not_touch (by simp [touch]), hS, hd]
+        simp
     · -- moveFcloseIn: ignored, harmless
       obtain ⟨x, hop⟩ := hso
       simp only [cont, hs]
-      apply go_ok
+      refine go_ok _ ?_ _
       intro q hq _
       have : applyFailed (crashState C p i) kept c.op f = crashState C p i := by rw [hop]; cases f <;> rfl
       rw [this, hfull]
       exact get_skip hq _ (by rw [hop]; simp [touch]) _
-    · -- moveRemove: the source stays behind
+    · -- moveRemove: abort, both copies exist
       obtain ⟨t, n, hop⟩ := hso
-      simp only [cont, hs]
-      apply go_ok
-      intro q hq hnt
-      have : applyFailed (crashState C p i) kept c.op f = crashState C p i := by rw [hop]; cases f <;> rfl
-      rw [this, hfull]
-      exact get_skip hq _ (by rw [hop]; simp only [touch, List.mem_cons, List.not_mem_nil, or_false]; exact hnt t n) _
-    · -- moveClosedir
-      simp only [cont, hs]
-      apply go_ok
-      intro q hq _
-      have : applyFailed (crashState C p i) kept c.op f = crashState C p i := by rw [hso]; cases f <;> rfl
-      rw [this, hfull]
-      exact get_skip hq _ (by rw [hso]; simp [touch]) _
+      simp only [cont, hs, hop, ops_nil, run_nil]
+      exact die_ok _ (fun q _ _ => by cases f <;> rfl) _
     · -- cleanRmdir
       obtain ⟨x, hop, hx⟩ := hso
       simp only [cont, hs]
-      apply go_ok
+      refine go_ok _ ?_ _
       intro q hq _
       have : applyFailed (crashState C p i) kept c.op f = crashState C p i := by rw [hop]; cases f <;> rfl
       rw [this, hfull]
@@ -163,105 +249,94 @@ theorem single_fault_not_silent_partial (C : Codec) (p : Prog) (hwf : WellFormed
       rw [hop]; simp only [touch, List.mem_cons, List.not_mem_nil, or_false]
       intro e; subst e; rw [hq] at hx; cases hx
 
-/-- Direct mode (no OVNI_TMPDIR), the code as it stands: every single fault
-    on any call other than `close(streamfd)` aborts or leaves a complete trace. -/
-theorem single_fault_not_silent_direct (C : Codec) (p : Prog) (hwf : WellFormed p) (hp : p.tmpMode = false)
-    (i : Nat) (f : Fault) (kept : Nat)
-    (hclose : ∀ c, (calls C.ser p)[i]? = some c → c.site ≠ .closeStream) :
-    NotSilent C p (faultAt C.ser p i f kept) := by
-  apply single_fault_not_silent_partial C p hwf (Or.inl hp)
-  intro c hc
-  cases hu : c.site.unchecked with
-  | false => rfl
-  | true => exact absurd (direct_unchecked C.ser p hp c (List.mem_of_getElem? hc) hu) (hclose c hc)
-
-/-- Without faults, no point of the run — in either mode, for either readdir
-    order — is without a complete copy of what each thread has flushed
-    (`remove(src)` only ever follows the completed copy). -/
-theorem fault_free_run_keeps_a_complete_copy (C : Codec) (p : Prog) (hwf : WellFormed p)
-    (hm : p.tmpMode = false ∨ ReaddirOrder p) (k : Nat) :
+/-- Without faults, no point of the run — in either mode — is without a
+    complete copy of what each thread has flushed (`remove(src)` only ever
+    follows the completed copy). -/
+theorem fault_free_run_keeps_a_complete_copy (C : Codec) (p : Prog) (hwf : WellFormed p) (k : Nat) :
     ∀ t ∈ p.threads, CopyExists (crashState C p k) t.tid :=
-  fun t ht => copy_at_crash C p hwf hm t ht k
+  fun t ht => copy_at_crash C p hwf t ht k
 
-/-! ### the code as it stands: the full statement is false
+/-! ### the code before the fix violated the statement
 
--- OPEN: theorem single_fault_not_silent (C p) : WellFormed p → (p.tmpMode = false ∨ ReaddirOrder p) →
---         ∀ i f kept, NotSilent C p (faultAt C.ser p i f kept)
-Refuted below at each call site whose failure the code ignores although data
-did not reach its destination (`Site.unchecked`).  After a fix that checks
-these results (abort, never unlink after a failed copy) the sites leave
-`Site.unchecked` and the `_partial` theorem is the full one. -/
+One witness per call site whose failure the old code (`Rt/FsOld.lean`) ignored
+although data did not reach its destination (`Old.unchecked`). -/
 
 open Ovni.Rt.Fs.Witness
 
 /-- Key `close-streamfd-unchecked` (direct mode): `close(streamfd)` reports a
-    deferred write error, `ovni_thread_free` ignores it and returns; the final
-    stream.obs lacks the last flush and no complete copy exists. -/
+    deferred write error, the old `ovni_thread_free` ignored it and returned;
+    the final stream.obs lacks the last flush and no complete copy exists. -/
 theorem close_streamfd_unchecked :
-    ((calls wC.ser wDirect)[20]?).map (·.site) = some .closeStream ∧
-    ¬ NotSilent wC wDirect (faultAt wC.ser wDirect 20 .eio) := by
-  refine ⟨by decide, fun h => ?_⟩
-  have := notSilent_returned (by decide) h wT (by decide) rfl
-  revert this; decide
+    siteAt (Old.calls wC.ser wDirect) 20 = some .closeStream ∧
+    Outcome.isReturned (Old.faultAt wC.ser wDirect 20 .eio) = true ∧
+    ¬ Complete wC wT (Old.faultAt wC.ser wDirect 20 .eio).fs ∧
+    ¬ CopyExists (Old.faultAt wC.ser wDirect 20 .eio).fs 7 := by decide
 
 /-- Key `move-opendir-failure-silent`: `opendir(thdir)` fails, nothing is
-    relocated, `ovni_thread_free` returns: the final trace has no stream. -/
+    relocated, the old `ovni_thread_free` returned: the final trace has no stream. -/
 theorem move_opendir_failure_silent :
-    ((calls wC.ser wObsFirst)[31]?).map (·.site) = some .moveOpendir ∧
-    ¬ NotSilent wC wObsFirst (faultAt wC.ser wObsFirst 31 .eacces) := by
-  refine ⟨by decide, fun h => ?_⟩
-  have := notSilent_returned (by decide) h wT (by decide) rfl
-  revert this; decide
+    siteAt (Old.calls wC.ser wObsFirst) 31 = some .moveOpendir ∧
+    Outcome.isReturned (Old.faultAt wC.ser wObsFirst 31 .eacces) = true ∧
+    ¬ Complete wC wT (Old.faultAt wC.ser wObsFirst 31 .eacces).fs := by decide
 
-/-- Key `move-readdir-failure-silent`: `readdir` fails, the loop ends as if
-    the directory were empty. -/
+/-- Key `move-readdir-failure-silent`: `readdir` fails, the old loop ended as
+    if the directory were empty. -/
 theorem move_readdir_failure_silent :
-    ((calls wC.ser wObsFirst)[32]?).map (·.site) = some .moveReaddir ∧
-    ¬ NotSilent wC wObsFirst (faultAt wC.ser wObsFirst 32 .eio) := by
-  refine ⟨by decide, fun h => ?_⟩
-  have := notSilent_returned (by decide) h wT (by decide) rfl
-  revert this; decide
+    siteAt (Old.calls wC.ser wObsFirst) 32 = some .moveReaddir ∧
+    Outcome.isReturned (Old.faultAt wC.ser wObsFirst 32 .eio) = true ∧
+    ¬ Complete wC wT (Old.faultAt wC.ser wObsFirst 32 .eio).fs := by decide
 
 /-- Key `move-ignores-copy-errors`: the `fwrite` of the stream.obs copy fails
-    (ENOSPC), the result is ignored, `remove(src)` follows: normal return, final
+    (ENOSPC), the result was ignored, `remove(src)` followed: normal return, final
     stream.obs empty, and the only complete copy has been unlinked. -/
 theorem move_ignores_copy_errors :
-    ((calls wC.ser wObsFirst)[38]?).map (·.site) = some .moveFwrite ∧
-    Outcome.isReturned (faultAt wC.ser wObsFirst 38 .enospc) = true ∧
-    ¬ Complete wC wT (faultAt wC.ser wObsFirst 38 .enospc).fs ∧
-    ¬ CopyExists (faultAt wC.ser wObsFirst 38 .enospc).fs 7 := by decide
+    siteAt (Old.calls wC.ser wObsFirst) 38 = some .moveFwrite ∧
+    Outcome.isReturned (Old.faultAt wC.ser wObsFirst 38 .enospc) = true ∧
+    ¬ Complete wC wT (Old.faultAt wC.ser wObsFirst 38 .enospc).fs ∧
+    ¬ CopyExists (Old.faultAt wC.ser wObsFirst 38 .enospc).fs 7 := by decide
 
 /-- … the same when the `fclose` of the copy fails (its final flush). -/
 theorem move_ignores_fclose_error :
-    ((calls wC.ser wObsFirst)[40]?).map (·.site) = some .moveFcloseOut ∧
-    Outcome.isReturned (faultAt wC.ser wObsFirst 40 .enospc) = true ∧
-    ¬ Complete wC wT (faultAt wC.ser wObsFirst 40 .enospc).fs ∧
-    ¬ CopyExists (faultAt wC.ser wObsFirst 40 .enospc).fs 7 := by decide
+    siteAt (Old.calls wC.ser wObsFirst) 40 = some .moveFcloseOut ∧
+    Outcome.isReturned (Old.faultAt wC.ser wObsFirst 40 .enospc) = true ∧
+    ¬ Complete wC wT (Old.faultAt wC.ser wObsFirst 40 .enospc).fs ∧
+    ¬ CopyExists (Old.faultAt wC.ser wObsFirst 40 .enospc).fs 7 := by decide
 
-/-- … and when `fopen(dst)` fails: the source survives, but the runtime
-    returns normally with the stream missing from the final trace. -/
+/-- … and when `fopen(dst)` fails: the source survives, but the old runtime
+    returned normally with the stream missing from the final trace. -/
 theorem move_ignores_fopen_error :
-    ((calls wC.ser wObsFirst)[36]?).map (·.site) = some .moveFopenDst ∧
-    Outcome.isReturned (faultAt wC.ser wObsFirst 36 .eacces) = true ∧
-    ¬ Complete wC wT (faultAt wC.ser wObsFirst 36 .eacces).fs ∧
-    CopyExists (faultAt wC.ser wObsFirst 36 .eacces).fs 7 := by decide
+    siteAt (Old.calls wC.ser wObsFirst) 36 = some .moveFopenDst ∧
+    Outcome.isReturned (Old.faultAt wC.ser wObsFirst 36 .eacces) = true ∧
+    ¬ Complete wC wT (Old.faultAt wC.ser wObsFirst 36 .eacces).fs ∧
+    CopyExists (Old.faultAt wC.ser wObsFirst 36 .eacces).fs 7 := by decide
 
-theorem single_fault_not_silent_fails :
+theorem single_fault_not_silent_before_fix :
     ¬ ∀ (C : Codec) (p : Prog), WellFormed p → (p.tmpMode = false ∨ ReaddirOrder p) →
-        ∀ i f kept, NotSilent C p (faultAt C.ser p i f kept) := by
+        ∀ i f kept, NotSilent C p (siteAt (Old.calls C.ser p) i) (Old.faultAt C.ser p i f kept) := by
   intro h
-  exact close_streamfd_unchecked.2 (h wC wDirect (by unfold WellFormed; decide) (Or.inl rfl) 20 .eio 0)
+  have h1 := h wC wObsFirst (by unfold WellFormed; decide) (Or.inr (by unfold ReaddirOrder; decide)) 38 .enospc 0
+  have := notSilent_returned (by decide) h1 wT (by decide) rfl
+  revert this; decide
 
-/-! ### non-vacuity -/
+/-! ### the same faults on the code after the fix, and non-vacuity -/
 
-/-- Checked sites exist and faults there do fire: a failing `write` aborts, a
-    short one is retried and the run completes. -/
-example : ((calls wC.ser wObsFirst)[25]?).map (·.site) = some .writeStream ∧
+/-- The witnesses above, replayed on the present code: every one aborts, and
+    a complete copy is left (for `close`, the injected fault is itself the loss). -/
+example :
+    siteAt (calls wC.ser wDirect) 20 = some .closeStream ∧
+    Outcome.isReturned (faultAt wC.ser wDirect 20 .eio) = false ∧
+    siteAt (calls wC.ser wObsFirst) 34 = some .moveFwrite ∧
+    Outcome.isReturned (faultAt wC.ser wObsFirst 34 .enospc) = false ∧
+    CopyExists (faultAt wC.ser wObsFirst 34 .enospc).fs 7 ∧
+    CopyExists (faultAt wC.ser wObsFirst 34 .short).fs 7 ∧
+    siteAt (calls wC.ser wObsFirst) 36 = some .moveFcloseOut ∧
+    Outcome.isReturned (faultAt wC.ser wObsFirst 36 .enospc) = false ∧
+    CopyExists (faultAt wC.ser wObsFirst 36 .enospc).fs 7 := by decide
+
+/-- A failing `write` aborts, a short one is retried and the run completes. -/
+example : siteAt (calls wC.ser wObsFirst) 25 = some .writeStream ∧
     Outcome.isReturned (faultAt wC.ser wObsFirst 25 .enospc) = false ∧
     Outcome.isReturned (faultAt wC.ser wObsFirst 25 .short) = true ∧
     Complete wC wT (faultAt wC.ser wObsFirst 25 .short).fs := by decide
-
-/-- Direct mode: every call site but `close(streamfd)` is checked. -/
-example : ∀ c ∈ calls wC.ser wDirect, c.site.unchecked = true → c.site = .closeStream := by decide
 
 end Ovni.Props.C10
